@@ -31,6 +31,13 @@ class Skel:
             return ['assign', [self.chain(v) for v in s.varlist.vars],
                     self.ix(s.assignop), self.explist(s.explist)]
         if n == 'StatFunctionCall':
+            fc = s.functioncall
+            if getattr(fc.args, 'short_print', False):
+                # ? explist
+                if self.name(fc.exp_prefix) != 'VarName':
+                    raise ValueError('short print without a name')
+                return ['print', self.ix(fc.exp_prefix.name),
+                        self.explist(fc.args.explist)]
             return ['call', self.chain(s.functioncall)]
         if n == 'StatDo':
             return ['do', self.chunk(s.block)]
